@@ -12,7 +12,7 @@ N_THOROUGH = 6000
 THOROUGH_EXHAUSTIVE = True
 RULE = ('cases = corpus + random (data 0..48 bytes, Content-Length below/equal/above the data and negative, '
         'buffer 1..12, fragmentation schedules of short reads, early EOF, optional max_body_size), run through '
-        '_body_read directly and through Request.body; thorough adds every schedule of length <= 5 over read '
+        '_body_read directly and through Request.body, a fifth of them with a multipart Content-Type (closing delimiter + epilogue: the markup is fed while buffering); thorough adds every schedule of length <= 5 over read '
         'caps {1,2,3,full} x body sizes 0..10 x buffers 1..4 x CL in {len-1,len,len+2} (exhaustive). '
         'non-trivial = at least two reads were issued and at least one of them was short or the body spilled; '
         'distinct by (len, cl, buf, schedule prefix actually consumed, via)')
@@ -20,6 +20,9 @@ TRUSTED = ['modelled, not verified: the OS temporary file behind the spilled bod
            'checked by the correspondence only); wsgi.input is modelled as coq/model/Stream.v (read returns '
            'b"" only at end of data)']
 ASSUMPTIONS = ['buffer size (max_memfile_size) > 0', 'wsgi.input.read(n) returns at most n bytes and b"" only at EOF']
+
+
+MP_BODY = b'--B\r\nContent-Disposition: form-data; name="a"\r\n\r\nv\r\n--B--'
 
 
 def corpus():
@@ -35,6 +38,11 @@ def corpus():
         dict(data=list(range(9)), cl=9, buf=9, sched=[], maxb=None, via='func'),          # size == buf: no spill
         dict(data=list(range(10)), cl=10, buf=9, sched=[], maxb=None, via='func'),        # spill
         dict(data=list(range(10)), cl=10, buf=4, sched=[0, 5, 1], maxb=6, via='func'),    # over the limit
+        # multipart content type: the body must still be ALL Content-Length bytes, epilogue included,
+        # wherever the read boundaries fall relative to the closing delimiter
+        dict(data=list(MP_BODY + b'\r\nepilogue'), cl=len(MP_BODY) + 10, buf=4096, sched=[len(MP_BODY) - 1], maxb=None,
+             via='request', mp=True),
+        dict(data=list(MP_BODY + b'\r\n'), cl=len(MP_BODY) + 2, buf=16, sched=[0] * 200, maxb=None, via='func', mp=True),
     ]
 
 
@@ -61,7 +69,17 @@ def gen(rng, n):
         maxb = None
         if rng.random() < 0.15:
             maxb = rng.randrange(0, 50)
-        yield dict(data=data, cl=cl, buf=buf, sched=sched, maxb=maxb, via=rng.choice(['func', 'request']))
+        case = dict(data=data, cl=cl, buf=buf, sched=sched, maxb=maxb, via=rng.choice(['func', 'request']))
+        if rng.random() < 0.2:
+            # a multipart body (markup is fed while buffering): closing delimiter followed by an epilogue
+            ep = bytes(rng.choice([13, 10, 45, 66, 120]) for _ in range(rng.randrange(0, 12)))
+            body = MP_BODY + ep
+            case['data'] = list(body)
+            case['mp'] = True
+            case['cl'] = len(body) if rng.random() < 0.7 else max(0, len(body) + rng.randrange(-6, 6))
+            if rng.random() < 0.5:
+                case['sched'] = [rng.choice([0, 1, 2, len(MP_BODY) - 1, len(MP_BODY), 40]) for _ in range(rng.randrange(1, 80))]
+        yield case
 
 
 def thorough():
@@ -83,7 +101,12 @@ def run_impl(case):
     st = FragStream(case['data'], case['sched'])
     if case['via'] == 'func':
         try:
-            body = _body_read(st.read, case['buf'], content_length=case['cl'], max_body_size=case['maxb'])
+            markup = None
+            if case.get('mp'):
+                from ombott.request_pkg.multipart import MultipartMarkup
+                markup = MultipartMarkup('B')
+            body = _body_read(st.read, case['buf'], content_length=case['cl'], max_body_size=case['maxb'],
+                              markup=markup)
         except BodySizeError:
             return dict(status='too_large', reqs=st.log, pos=st.pos)
         spilled = not isinstance(body, BytesIO)
@@ -91,6 +114,8 @@ def run_impl(case):
         content = body.read()
         return dict(status='ok', body=list(content), spilled=spilled, reqs=st.log, pos=st.pos)
     env = environ('POST', '/', **{'wsgi.input': st})
+    if case.get('mp'):
+        env['CONTENT_TYPE'] = 'multipart/form-data; boundary=B'
     if case['cl'] >= 0:
         env['CONTENT_LENGTH'] = str(case['cl'])
     else:
@@ -166,13 +191,15 @@ def nontrivial(case, obs):
 
 
 def key(case):
-    return (len(case['data']), case['cl'], case['buf'], tuple(case['sched'][:8]), case['via'], case['maxb'])
+    return (len(case['data']), case['cl'], case['buf'], tuple(case['sched'][:8]), case['via'], case['maxb'],
+            bool(case.get('mp')))
 
 
 def classify(case, obs):
     ln, cl = len(case['data']), case['cl']
     rel = 'cl<0' if cl < 0 else 'cl=len' if cl == ln else 'cl<len' if cl < ln else 'cl>len(early EOF)'
-    return '%s/%s/%s/%s' % (case['via'], rel, 'sched' if case['sched'] else 'full-reads', obs.get('status'))
+    return '%s%s/%s/%s/%s' % (case['via'], '+multipart' if case.get('mp') else '', rel,
+                              'sched' if case['sched'] else 'full-reads', obs.get('status'))
 
 
 def shrink(case):
